@@ -237,6 +237,13 @@ pub mod api {
             acc += v as i32;
         }
         f_arr.set_first(i);
+        // Extend with more items than the buffer holds, with fewer, and with none
+        let more: [i16; 5] = kani::any();
+        f_arr.extend(more.iter().cloned());
+        f_arr.extend(more[..2].iter().cloned());
+        b_arr.extend(more.iter().cloned());
+        b_ref.extend(more[..i % 3].iter().cloned());
+        b_box.extend(more.iter().cloned());
         unsteady();
         assert!(unsafe { ALLOCS } == allocs_before);
         let (_, _, storage) = unsafe { b_box.into_raw_parts() };
